@@ -14,7 +14,7 @@
 //                        The table is an arbitrary (havocked) object; each const access observes an entry that
 //                        satisfies the contract (assume at the point of use == the universally quantified contract,
 //                        html_quote only holds a const reference).  Reason: the concrete 2048-byte table makes
-//                        symex/SAT of the loop-contract problem explode (see the final report).
+//                        symex/SAT of the html_quote problems explode (symex does not finish).
 #include "squid.h"
 #include "sbuf/SBuf.h"
 #include "spec_table.h"
@@ -22,9 +22,7 @@
 #ifdef CV_ABSTRACT_TABLE
 static inline void cv_assume_entry(const SBuf &e, unsigned long c)
 {
-#ifndef EXP_NOASSUME
     __CPROVER_assume(spec_entry_exact((unsigned char)c, e.len_, e.store_));
-#endif
 }
 #define CV_ARRAY_CONST_ACCESS_HOOK(e, i) cv_assume_entry(e, i)
 #endif
@@ -38,9 +36,7 @@ static std::array<SBuf, 256> cv_abs_table;
 static const std::array<SBuf, 256> &cv_EscapeSequences_contract()
 {
     if (!cv_escapeMap) {
-#ifndef EXP_NOHAVOC
         __CPROVER_havoc_object(&cv_abs_table);                 // arbitrary contents ...
-#endif
         cv_escapeMap = &cv_abs_table;
     }
     return *cv_escapeMap;                                      // ... constrained entry by entry at each const access
